@@ -260,7 +260,21 @@ def r4_lock_type(chk: Check):
     chk.require(len(app) == 1, chk.fkey(f, "locks recorded"), "acquired locks must be recorded for release at cleanup", chk.loc(f.module, loop.ast))
 
 
+def script_literals(chk: Check):
+    """The generated script is Python source: the paths and values it embeds are written as Python literals (repr), not with a shell quoting
+    function between quotes (a space or a non-ASCII letter in the workspace path then yields a path that starts with a quote: no marker is ever
+    written and the process file stays)"""
+    tree = chk.tree
+    w = tree.func("scriptbuilder", "PythonScriptBuilder.write")
+    sh = [c for c in ast.walk(w.node) if isinstance(c, ast.Call) and (dotted(c.func) or "").split(".")[-1] in ("shquote", "quote")]
+    chk.require(not sh, chk.fkey(w, "python literals"), f"the job script embeds `{src(sh[0])[:50] if sh else ''}` (shell quoting) inside a Python string literal", chk.loc(w.module, sh[0] if sh else w.node))
+    runner = [x for x in ast.walk(w.node) if isinstance(x, ast.JoinedStr) and "TaskRunner(" in "".join(v.value for v in x.values if isinstance(v, ast.Constant) and isinstance(v.value, str))]
+    ok = bool(runner) and all(any(isinstance(v, ast.FormattedValue) and v.conversion == ord("r") for v in x.values) for x in runner)
+    chk.require(ok, chk.fkey(w, "script path written with repr"), "the script path handed to TaskRunner is not written as a Python literal", chk.loc(w.module, w.node))
+
+
 def r5_pid_under_lock(chk: Check):
+    script_literals(chk)
     c05.r3_lock_while_starting(chk)
 
 
